@@ -109,7 +109,8 @@ Proof. intros H. destruct x as [[r cbs] cmds]. destruct o; cbn [c09_step] in H.
   - left. inversion H; subst. reflexivity.
   - (* DoWork *) left. repeat dmh H; try discriminate; inversion H; subst; cbn [set_regs set_qclosed q_regs];
       try reflexivity;
-      match goal with Hr : ready_step ?ev ?qq = (?l, _) |- _ => pose proof (ready_step_ids ev qq) as X; rewrite Hr in X; exact X end. Qed.
+      match goal with Hr : ready_step ?ev ?qq = (?l, _) |- _ => pose proof (ready_step_ids ev qq) as X; rewrite Hr in X; exact X end.
+  - (* CloseHandle *) left. repeat dmh H; try discriminate; inversion H; subst; reflexivity. Qed.
 
 Lemma nodup_rlookup l : NoDup (reg_ids l) -> forall k r x, In (k, r, x) l -> rlookup k r l = Some x.
 Proof. induction l as [|[[k2 r2] y] l IH]; cbn; intros Hn k r x Hin; [tauto|].
@@ -165,7 +166,8 @@ Proof. intros H. destruct o; try (exfalso; exact H); cbn [step]; try reflexivity
   - unfold do_add. repeat dmatch; cbn [fst]; rewrite ?setm_closed; auto.
   - apply do_find_frame.
   - apply do_drop_framed.
-  - rewrite do_peek_state. reflexivity. Qed.
+  - rewrite do_peek_state. reflexivity.
+  - unfold do_close_handle. repeat dmatch; reflexivity. Qed.
 
 Lemma closing_count c s o :
   inv s -> closed s = false -> closed (fst (step c s o)) = true -> is_ctr_event o = false ->
